@@ -25,7 +25,10 @@
 #ifndef PHQ_UNIT_HPP
 #define PHQ_UNIT_HPP
 
+#include <array>
+#include <cstddef>
 #include <functional>
+#include <initializer_list>
 #include <type_traits>
 #include <vector>
 
@@ -104,21 +107,57 @@ public:
   }
 };
 
-/// \brief Abstract map of functions for converting a sequence of values expressed in the standard
+/// \brief Table of functions for converting a sequence of values expressed in a given type of unit
+/// of measure, indexed by unit. Unlike a std::map of std::function objects, this table is a literal
+/// type whose constructor is constexpr: a table initialized with a list of (unit, function) entries
+/// is constant-initialized, such that unit conversions can be used during the dynamic
+/// initialization of other objects with static storage duration. Internal implementation detail not
+/// intended to be used outside of the PhQ::ConvertInPlace and PhQ::Convert functions.
+template <typename Unit, typename NumericType>
+class ConversionTable {
+public:
+  /// \brief Function that converts a sequence of values in-place.
+  using Function = void (*)(NumericType* values, std::size_t size);
+
+  /// \brief Entry of this table: a unit of measure and its conversion function.
+  struct Entry {
+    /// \brief Unit of measure.
+    Unit first;
+
+    /// \brief Conversion function of the unit of measure.
+    Function second;
+  };
+
+  /// \brief Constructor. Constructs a table from a list of (unit, function) entries.
+  constexpr ConversionTable(const std::initializer_list<Entry> entries) {
+    for (const Entry& entry : entries) {
+      entries_[static_cast<std::size_t>(entry.first)] = entry;
+    }
+  }
+
+  /// \brief Returns the entry of a given unit of measure.
+  [[nodiscard]] constexpr const Entry* find(const Unit unit) const noexcept {
+    return &entries_[static_cast<std::size_t>(unit)];
+  }
+
+private:
+  /// \brief Entries of this table, indexed by the underlying value of their unit of measure.
+  std::array<Entry, 128> entries_{};
+};
+
+/// \brief Abstract table of functions for converting a sequence of values expressed in the standard
 /// unit of measure of a given type to any given unit of measure of that type. Internal
 /// implementation detail not intended to be used outside of the PhQ::ConvertInPlace, PhQ::Convert,
 /// and PhQ::ConvertStatically functions.
 template <typename Unit, typename NumericType>
-inline const std::map<Unit, std::function<void(NumericType* values, const std::size_t size)>>
-    MapOfConversionsFromStandard;
+inline const ConversionTable<Unit, NumericType> MapOfConversionsFromStandard{};
 
-/// \brief Abstract map of functions for converting a sequence of values expressed in any given unit
-/// of measure of a given type to the standard unit of measure of that type. Internal implementation
-/// detail not intended to be used outside of the PhQ::ConvertInPlace, PhQ::Convert, and
-/// PhQ::ConvertStatically functions.
+/// \brief Abstract table of functions for converting a sequence of values expressed in any given
+/// unit of measure of a given type to the standard unit of measure of that type. Internal
+/// implementation detail not intended to be used outside of the PhQ::ConvertInPlace, PhQ::Convert,
+/// and PhQ::ConvertStatically functions.
 template <typename Unit, typename NumericType>
-inline const std::map<Unit, std::function<void(NumericType* values, const std::size_t size)>>
-    MapOfConversionsToStandard;
+inline const ConversionTable<Unit, NumericType> MapOfConversionsToStandard{};
 
 }  // namespace Internal
 
